@@ -354,6 +354,89 @@ theorem invoked_only_authentic (b : Box K N P C) (hb : BoxLaws b) (codec : Inner
               · simp [receive, decode, ha, hk, hp, hu, hs] at h
       · simp [receive, decode, ha, hal] at h
 
+/-! ### the ERROR branch with a caller-side URI → class registry (mapped error URIs) -/
+
+theorem onError_eq_unmapped (b : Box K N P C) (codec : InnerCodec X Y P) (s : Codec K)
+    (ctorOk : String → Option X → Option Y → Bool) (eu : Uri) (m : AppPayload X Y C) :
+    onErrorMapped b codec s (fun _ => none) ctorOk eu m = onError b codec s eu m := by
+  unfold onErrorMapped onError; cases receive b codec s true eu m <;> rfl
+
+/-- whatever the caller registered for the envelope error URI and whatever its constructor accepts: a rejected
+payload surfaces as the explicit encryption error, never as the mapped class -/
+theorem rejected_is_enc_error_mapped (b : Box K N P C) (codec : InnerCodec X Y P) (s : Codec K)
+    (mapped : Uri → Option String) (ctorOk : String → Option X → Option Y → Bool) (eu : Uri) (m : AppPayload X Y C)
+    (e : EncErr) (h : receive b codec s true eu m = .rejected e) :
+    onErrorMapped b codec s mapped ctorOk eu m = .encFailed e := by
+  simp [onErrorMapped, h]
+
+theorem tamper_rejected_mapped (b : Box K N P C) (hb : BoxLaws b) (codec : InnerCodec X Y P) (ring : KeyRing K)
+    (mapped : Uri → Option String) (ctorOk : String → Option X → Option Y → Bool)
+    (env : Uri) (m : AppPayload X Y C) (halgo : m.encAlgo ≠ none)
+    (hforged : ∀ k c, getBox ring true env = some k → m.payload = some c → ∀ n p, c ≠ b.lock k n p) :
+    onErrorMapped b codec (some ring) mapped ctorOk env m = .encFailed .decryptError :=
+  rejected_is_enc_error_mapped b codec _ mapped ctorOk env m _ (tamper_rejected b hb codec ring true env m halgo hforged)
+
+theorem uri_mismatch_rejected_mapped (b : Box K N P C) (hb : BoxLaws b) (codec : InnerCodec X Y P) (hc : codec.Laws)
+    (ring : KeyRing K) (mapped : Uri → Option String) (ctorOk : String → Option X → Option Y → Bool)
+    (env : Uri) (k : K) (n : N) (i : Inner X Y) (p : P)
+    (hk : getBox ring true env = some k) (hser : codec.ser i = some p) (hne : i.uri ≠ some env) :
+    onErrorMapped b codec (some ring) mapped ctorOk env (sealedMsg (b.lock k n p)) = .encFailed .trustedUriMismatch :=
+  rejected_is_enc_error_mapped b codec _ mapped ctorOk env _ _ (uri_mismatch_rejected b hb codec hc ring true env k n i p hk hser hne)
+
+theorem wrong_key_rejected_mapped (b : Box K N P C) (hb : BoxLaws b) (codec : InnerCodec X Y P) (ring : KeyRing K)
+    (mapped : Uri → Option String) (ctorOk : String → Option X → Option Y → Bool)
+    (env : Uri) (k k' : K) (n : N) (p : P) (hk : getBox ring true env = some k') (hne : k' ≠ k) :
+    onErrorMapped b codec (some ring) mapped ctorOk env (sealedMsg (b.lock k n p)) = .encFailed .decryptError :=
+  rejected_is_enc_error_mapped b codec _ mapped ctorOk env _ _ (wrong_key_rejected b hb codec ring true env k k' n p hk hne)
+
+/-- conversely the mapped class is only ever built from an authentic payload sealed for this very error URI (or from a
+clear ERROR) -/
+theorem mapped_class_only_authentic (b : Box K N P C) (hb : BoxLaws b) (codec : InnerCodec X Y P) (s : Codec K)
+    (mapped : Uri → Option String) (ctorOk : String → Option X → Option Y → Bool) (eu : Uri) (m : AppPayload X Y C)
+    (c : String) (a : Option X) (kw : Option Y)
+    (h : onErrorMapped b codec s mapped ctorOk eu m = .userError c a kw) (henc : m.encAlgo ≠ none) :
+    mapped eu = some c ∧ ∃ ring k ct n p, s = some ring ∧ getBox ring true eu = some k ∧ m.payload = some ct ∧
+      ct = b.lock k n p ∧ codec.deser p = some { uri := some eu, args := a, kwargs := kw } := by
+  unfold onErrorMapped at h
+  cases hr : receive b codec s true eu m with
+  | rejected e => rw [hr] at h; cases h
+  | plain a' kw' =>
+    exfalso
+    unfold receive at hr
+    cases ha : m.encAlgo with
+    | none => exact henc ha
+    | some al =>
+      rw [ha] at hr; simp only at hr
+      cases s with
+      | none => cases hr
+      | some ring =>
+        simp only at hr
+        cases hd : decode b codec ring true eu m with
+        | raised => rw [hd] at hr; cases hr
+        | ok u a2 k2 => rw [hd] at hr; simp only at hr; split at hr <;> cases hr
+  | decoded a' kw' =>
+    rw [hr] at h; simp only at h
+    cases hm : mapped eu with
+    | none => rw [hm] at h; cases h
+    | some c' =>
+      rw [hm] at h; simp only at h
+      split at h
+      · simp only [CallOut.userError.injEq] at h
+        obtain ⟨h1, h2, h3⟩ := h
+        subst h1 h2 h3
+        exact ⟨rfl, invoked_only_authentic b hb codec s true eu m a' kw' hr⟩
+      · cases h
+
+/-- non-vacuity: mapped URI, garbage payload → explicit encryption error; genuine payload → the mapped class -/
+example : onErrorMapped (Toy.box Nat Nat (Inner Nat Nat)) (Toy.codec Nat Nat (fun _ _ => false)) (some ringDefault)
+    (fun _ => some "MyError") (fun _ _ _ => true) "com.err".toList (sealedMsg (.garbage 1)) = .encFailed .decryptError := by
+  decide
+
+example : onErrorMapped (Toy.box Nat Nat (Inner Nat Nat)) (Toy.codec Nat Nat (fun _ _ => false)) (some ringDefault)
+    (fun _ => some "MyError") (fun _ _ _ => true) "com.err".toList
+    (sealedMsg (.sealed 5 1 ⟨some "com.err".toList, some 1, none⟩)) = .userError "MyError" (some 1) none := by
+  decide
+
 /-- What the laws do NOT give (noted, not part of the property): a ciphertext is accepted from whoever holds the
 shared key, in either direction — the CALL's own ciphertext reflected as RESULT payload is accepted by the caller,
 because `Box(a_priv, b_pub)` and `Box(b_priv, a_pub)` are the same key and the inner envelope has no direction. -/
